@@ -289,6 +289,13 @@ class CancelScope(AbstractCancelScope):
                     if isinstance(exc, asyncio.CancelledError)
                 )
 
+            # The cancellation requests issued by this scope which have not been consumed above
+            # (swallowed by a cancel-shielded section, or the block was left by another exception)
+            # must not outlive the scope.
+            while self.__host_task_cancel_calls:
+                self.__host_task_cancel_calls -= 1
+                host_task.uncancel()
+
             delayed_task_cancel: _DelayedCancel | None = self.__delayed_task_cancel_dict.get(host_task, None)
             if delayed_task_cancel is not None and delayed_task_cancel.message == self.__cancellation_id():
                 del self.__delayed_task_cancel_dict[host_task]
